@@ -75,7 +75,12 @@ def _u(n, v, big):
     return int(v).to_bytes(n, "big" if big else "little")
 
 
-def utf8z(s, big):
+NUL_AT = []       # file offsets of the NUL terminators written by the last ser_crashpad (for the "missing NUL" cases)
+
+
+def utf8z(s, big, at=None):
+    if at is not None:
+        NUL_AT.append(at + 4 + len(s))
     return _u(4, len(s), big) + bytes(s) + b"\0"
 
 
@@ -92,19 +97,19 @@ def ser_counted(items, esize, entry, off, big):
 
 
 def ser_dict(kvs, off, big):
-    return ser_counted(kvs, 8, lambda kv, o: (_u(4, o, big) + _u(4, o + 5 + len(kv[0]), big), utf8z(kv[0], big) + utf8z(kv[1], big)), off, big)
+    return ser_counted(kvs, 8, lambda kv, o: (_u(4, o, big) + _u(4, o + 5 + len(kv[0]), big), utf8z(kv[0], big, o) + utf8z(kv[1], big, o + 5 + len(kv[0]))), off, big)
 
 
 def ser_strlist(l, off, big):
-    return ser_counted(l, 4, lambda x, o: (_u(4, o, big), utf8z(x, big)), off, big)
+    return ser_counted(l, 4, lambda x, o: (_u(4, o, big), utf8z(x, big, o)), off, big)
 
 
 def ser_annots(l, off, big):
     def entry(a, o):
         name, ty, rs, val = a
         if isinstance(val, bytes):
-            return (_u(4, o, big) + _u(2, ty, big) + _u(2, rs, big) + _u(4, o + 5 + len(name), big), utf8z(name, big) + _u(4, len(val), big) + val)
-        return (_u(4, o, big) + _u(2, ty, big) + _u(2, rs, big) + _u(4, val, big), utf8z(name, big))
+            return (_u(4, o, big) + _u(2, ty, big) + _u(2, rs, big) + _u(4, o + 5 + len(name), big), utf8z(name, big, o) + _u(4, len(val), big) + val)
+        return (_u(4, o, big) + _u(2, ty, big) + _u(2, rs, big) + _u(4, val, big), utf8z(name, big, o))
     return ser_counted(l, 12, entry, off, big)
 
 
@@ -137,12 +142,23 @@ def ser_bootargs(x, off, big):
     return 12, _u(4, ty, big) + _u(8, off + 12, big) + _u(4, 2 * len(args), big) + b"".join(_u(2, c, big) for c in args)
 
 
-def ser_tail(kind, x, off, big):
+def ser_tail(kind, x, off, big, corrupt=True):
     if kind == 1:
         return len(x), bytes(x)
     if kind == 2:
         return ser_bootargs(x, off, big)
-    return ser_crashpad(x, off, big)
+    del NUL_AT[:]
+    z, b = ser_crashpad(x, off, big)
+    k = x.get("nonul", -1)
+    if corrupt and k >= 0 and NUL_AT:           # one string loses its terminator: the reader must refuse the stream
+        b = bytearray(b)
+        b[NUL_AT[k % len(NUL_AT)] - off] = 0x41
+        b = bytes(b)
+    return z, b
+
+
+def has_strings(c):
+    return bool(c["simple"]) or any(cm["list"] or cm["simple"] or cm["objs"] for cm in c["mods"])
 
 
 def bstr_toks(b):
@@ -169,6 +185,7 @@ def tail_toks(kind, x):
         t += kvs(cm["simple"]) + [len(cm["objs"])]
         for name, ty, rs, val in cm["objs"]:
             t += bstr_toks(name) + [ty, rs] + ([0] + bstr_toks(val) if isinstance(val, bytes) else [1, val])
+    t.append(x.get("nonul", -1))            # after everything the Coq parser reads
     return t
 
 
@@ -191,6 +208,7 @@ def parse_tail(r, kind):
             name, ty, rs, k = bs(), r.int(), r.int(), r.int()
             cm["objs"].append((name, ty, rs, bs() if k == 0 else r.int()))
         c["mods"].append(cm)
+    c["nonul"] = r.int()
     return c
 
 
@@ -223,7 +241,7 @@ def tail_expect(kind, x):
                 if not isinstance(val, bytes):
                     return None          # a string annotation with a dangling value: outside what the property fixes
                 strings.append(val)
-    if c["ver"] == 0 or not all(is_utf8(z) for z in strings):
+    if c["ver"] == 0 or not all(is_utf8(z) for z in strings) or (c.get("nonul", -1) >= 0 and has_strings(c)):
         return (1, [])
     items = [[0, c["ver"]] + list(c["report"]) + list(c["client"])]
     for k, v in sorted(dict(c["simple"]).items()):
@@ -1229,7 +1247,7 @@ class Gen:
                 ver = r.choice([1, 1, 1, 2, self.u(32)]) if (wf or r.chance(5, 6)) else 0
                 if wf and ver == 0:
                     ver = 1
-                out.append((3, {"ver": ver, "report": [self.u(32), self.u(16), self.u(16)] + [r.below(256) for _ in range(8)],
+                out.append((3, {"nonul": r.below(1000) if (not wf and r.chance(1, 8)) else -1, "ver": ver, "report": [self.u(32), self.u(16), self.u(16)] + [r.below(256) for _ in range(8)],
                                 "client": [self.u(32), self.u(16), self.u(16)] + [r.below(256) for _ in range(8)],
                                 "simple": kvs(),
                                 "mods": [{"idx": self.u(32) if r.chance(1, 3) else r.below(8), "ver": r.choice([1, 0, self.u(32)]),
@@ -1334,35 +1352,49 @@ class C02(PropBase):
     translators = ["format_layouts.py"]
     impl_mem_gb = 4
     rule = ("a case = one dump model (header fields, 0..40 items per list, UTF-16 names incl. unpaired surrogates, CodeView records of "
-            "every kind, build ids 0..64 bytes, regions 0..64 KiB anywhere in u64, duplicate directory entries, list padding on/off) "
-            "serialized by the extracted Coq encode_dump, once little- and once big-endian; the implementation and the extracted "
-            "decode_dump read the same bytes; the oracle recomputes the expected reading from the model in Python. "
+            "every kind, build ids 0..64 bytes, regions 0..64 KiB anywhere in u64, list padding on/off; a directory with 2-4 entries of "
+            "types the dump has, of named types without a reader (CommentStreamA, UnusedStream, Windows CE, LinuxCmdLine/Auxv ...) and of "
+            "vendor / unknown types (0x4d7a0b0b, 0xffff.., Breakpad/Crashpad ranges), locations inside / outside the file; plus "
+            "MozSoftErrors, Mac boot args and Crashpad info streams written by the plugin) serialized by the extracted Coq encode_dump, once "
+            "little- and once big-endian; the implementation and the extracted decoders read the same bytes; the oracle recomputes the "
+            "expected reading from the model (and the directory from the bytes) in Python. "
             "Non-trivial = the dump carries at least three streams and at least one list with >= 2 items; distinct = distinct case lines")
     trusted_base = [
         "Coq 8.16.1 kernel (vm_compute only in the non-vacuity Examples and the layout pin)",
         "translate/format_layouts.py: regex/bracket-matching translator from format.rs to coq/Gen/Layouts.v (aborts on unrecognised syntax); "
-        "scroll's derive(Pread) assumed to read fields in declaration order without padding (exercised by the correspondence run)",
+        "scroll's derive(Pread) assumed to read fields in declaration order without padding (exercised by the correspondence run); "
+        "derive(FromPrimitive) assumed to accept exactly the declared enum values",
         "hand-written model C02/Model.v (reader side mirrors minidump.rs; serializer side = the documented format), tied to the code by the "
         "correspondence run on identical bytes and by the synth cross-check; C08 range-table model for memory_at_address",
+        "the plugin's own writer of the MozSoftErrors / boot args / Crashpad streams (checked byte for byte against the extracted Coq serializers "
+        "enc_bootargs / enc_crashpad on every case)",
         "extraction: ExtrOcamlBasic only; ocaml/zconv.ml + ocaml/c02/main.ml; harness/src/bin/c02.rs",
     ]
-    assumptions = ["Crashpad info and handle object-information chains are not in the dump model (their structs are translated and pinned); MozSoftErrors, "
-                   "LinuxCmdLine/Auxv/DsoDebug and the Mac streams are not modelled",
+    assumptions = ["partial: handle object-information chains, Mac crash info, LinuxDsoDebug and the line syntax of Linux maps / limits are not modelled "
+                   "(LinuxCmdLine / LinuxAuxv / LinuxDsoDebug have no typed reader: they are covered as raw streams by the directory theorem)",
+                   "MozSoftErrors, Mac boot args and Crashpad info have stream-level round-trip theorems (any offset, any surrounding file) composed with the "
+                   "directory theorem (c02_stream_served); they are not fields of the 20-stream model of c02_dump_roundtrip",
                    "Linux text streams are byte-exact raw streams in the theorem; the key/value syntax of cpuinfo/status/lsb-release/environ is compared "
                    "against a Coq model of linux_list_iter in the correspondence run, maps/limits line syntax belongs to other properties",
-                   "lossy UTF-8 decoding of PDB file names and UTF-16 -> String conversion are exercised (Python re-derives them), not modelled in Coq"]
+                   "lossy UTF-8 decoding of PDB file names and UTF-16 -> String conversion are exercised (Python re-derives them), not modelled in Coq; "
+                   "UTF-8 validity (std::str::from_utf8) is modelled (valid_utf8) and compared on malformed strings"]
     manifest = {
-        "text": "Theorems (Coq, all values in range, both byte orders, any number of items): the generic layout codec round-trips every struct layout "
+        "text": "partial: Theorems (Coq, all values in range, both byte orders, any number of items): the generic layout codec round-trips every struct layout "
                 "regenerated from format.rs (all 74 parseable structs, pinned against the documented layouts); list framing (count header, 0-or-4 padding), "
                 "UTF-16 strings, CodeView records and the whole dump of 20 streams (header, directory with arbitrary leading duplicates, system info, threads, "
                 "modules, MemoryList/Memory64List, exception, thread names, unloaded modules, memory info, misc info, Breakpad info, assertion info, thread "
                 "info list, handle data, six Linux text streams as raw bytes) decode to exactly the encoded model; little- and big-endian encodings decode to the same model; "
-                "the last directory entry of a type is served; every address of an isolated region reads back its byte (C08); CPU contexts of nine "
+                "the directory as a whole: for EVERY u32 stream type (named or not) the map Minidump::read builds holds the last entry of the type (index and "
+                "location), get_raw_stream is location_slice of it, all_streams()/unknown_streams() are exactly these entries, and the directory of a serialized "
+                "model reads back entry by entry; MozSoftErrors, Mac boot args and the Crashpad info stream (simple annotations, module list with list / simple / "
+                "object annotations) round-trip at any offset of any file and are served through any directory whose last entry of the type points at them; "
+                "every address of an isolated region reads back its byte (C08); CPU contexts of nine "
                 "architectures read back their registers iff context_flags match; debug/code identifiers are the documented functions of the CodeView record. "
-                "The model is tied to the code by reading the same Coq-serialized bytes with the real Minidump::read/get_stream and with the extracted decoder, "
-                "by a cross-check against minidump-synth, and by an independent Python oracle.",
+                "The model is tied to the code by reading the same serialized bytes with the real Minidump::read/get_stream/get_raw_stream/all_streams/unknown_streams "
+                "and with the extracted decoders, by a cross-check against minidump-synth, and by an independent Python oracle.",
         "note": "Trusted: Coq kernel; layout translator; hand-written reader model (correspondence-checked, not verified against the Rust source); "
-                "extraction + OCaml/Rust glue. Crashpad info is outside the dump model; Linux text content is correspondence-only.",
+                "extraction + OCaml/Rust glue; the plugin's writer of three streams (cross-checked against the Coq serializers). Not modelled: handle "
+                "object-information chains, Mac crash info, Linux maps line syntax; Linux text content is correspondence-only.",
     }
 
     # ---- stage 1: models -> bytes through the extracted serializer
@@ -1428,7 +1460,7 @@ class C02(PropBase):
                 h = (h if h != "-" else "") + b.hex()
                 if kind != 1:
                     xlines.append("T %d %d %d %s" % (kind, mm["endian"], off, " ".join(map(str, tail_toks(kind, x)))))
-                    xwant.append(b.hex() or "-")
+                    xwant.append(ser_tail(kind, x, off, big, corrupt=False)[1].hex() or "-")
             hexes[i] = h
         if xlines:
             exe = vlib.ocaml_build(self.pid)
